@@ -152,7 +152,7 @@ class Mixed(AbstractFiniteElement):
         return self._subs
 
 
-class Sym(AbstractFiniteElement):
+class SymElem(AbstractFiniteElement):
     def __init__(self, n, subs):
         self._n = n
         self._subs = list(subs)
@@ -165,7 +165,7 @@ class Sym(AbstractFiniteElement):
                 k += 1
         assert k == len(self._subs)
         self._symmetry = sym
-        self._repr = f"Sym({n!r}, {self._subs!r})"
+        self._repr = f"SymElem({n!r}, {self._subs!r})"
         self._pb = SymmetricPullback(self, sym)
 
     def __repr__(self):
@@ -249,7 +249,7 @@ def make_element(spec, cellname):
     if k == "mixed":
         return Mixed([make_element(s, cellname) for s in spec[1]])
     if k == "sym":
-        return Sym(spec[1], [make_element(s, cellname) for s in spec[2]])
+        return SymElem(spec[1], [make_element(s, cellname) for s in spec[2]])
     raise ValueError(spec)
 
 
@@ -267,4 +267,4 @@ def is_continuous(elem):
     return s in (H1, HInf) or getattr(s, "name", "") in ("H1", "H2", "H3", "HInf")
 
 
-EVAL_NS = {"Elem": Elem, "Mixed": Mixed, "Sym": Sym}
+EVAL_NS = {"Elem": Elem, "Mixed": Mixed, "SymElem": SymElem}
